@@ -353,8 +353,8 @@ Fixpoint find_index (p : Z -> bool) (i : Z) (l : list Z) : option Z :=
 (* >>> proposed repairs of the two open findings; the model follows /repo HEAD (both false).
    after notes/C02.fix-4.diff is applied: ic_cr_adjusts := true   (GFF3 / wig: the CR is removed from the last column)
    after notes/C02.fix-5.diff is applied: ic_comment_tabs_ignored := true   (a TAB inside a comment line is no delimiter) <<< *)
-Definition ic_cr_adjusts : bool := false.
-Definition ic_comment_tabs_ignored : bool := false.
+Definition ic_cr_adjusts : bool := true. 
+Definition ic_comment_tabs_ignored : bool := true. 
 Fixpoint ic_scan (i : Z) (at_start in_comment : bool) (l : list Z) : list Z :=
   match l with
   | [] => []
